@@ -39,8 +39,9 @@ Theorem c02_parse_print_leaves : forall w ast, wf_print ast = true ->
 Proof. exact parse_print_leaves. Qed.
 Print Assumptions c02_parse_print_leaves.
 
-(* The C02 statement on the FAITHFUL models, end to end, for the fragment text +
-   {var:} + {raw:} + {math:} + <loop set/value/group/sort> + <if> / <else if> / <else>,
+(* The C02 statement on the FAITHFUL models, end to end, for EVERY constructor of the
+   template AST -- text, {var:}, {raw:}, {math:}, {svar:} with values, inline
+   {if case true false}, <loop set/value/group/sort>, <if> / <else if> / <else>,
    nested to any depth: parsing the printed template with the parser model
    (TparseModel: the real scanner, stack, attribute scanners, expression parser and
    8/16-bit fields) and rendering the resulting tree with the renderer model
@@ -50,13 +51,22 @@ Print Assumptions c02_parse_print_leaves.
    checked access succeeds (ROk).  wf_template (boolean, extracted, measured on the
    generator's output in every run): no tag characters in texts / names, paths and
    loop heads within the 8-bit fields, naturals below 10^19, the documented
-   unique-name rule for indexed paths, an <else> case last.  svar and inline if: the
-   full statement c02_full_statement is kept as a Definition; for them C02 rests on
-   c02_render_tree (abstracted renderer) + the correspondence run. *)
-Theorem c02_full_if_math : forall auto w root ast, wf_template ast = true ->
+   unique-name rule for indexed paths, an <else> case last, inline-if values of text
+   without a double quote / var / raw / math within the 16-bit and 255-sub-tag bounds.
+   A super variable needs at least one value (value-less {svar:a} is outside the
+   documented grammar; the code then looks the name up INCLUDING its closing brace),
+   values that are var / raw / math tags, and a name no enclosing loop value is a
+   prefix of. *)
+Theorem c02_full : forall auto w root ast, wf_template ast = true ->
   render_all_jv auto w (print_nodes ast) root = ROk (expand auto w root ast).
-Proof. exact TfullMain.c02_full_if_math. Qed.
-Print Assumptions c02_full_if_math.
+Proof. exact TfullMain.c02_full. Qed.
+Print Assumptions c02_full.
+
+(* the same as a statement about the predicate: wf_template makes the full C02
+   statement (all constructors of the template AST) true *)
+Theorem c02_full_wf_template : c02_full_statement wf_template.
+Proof. exact TfullMain.c02_full_wf_template. Qed.
+Print Assumptions c02_full_wf_template.
 
 Theorem c02_parse_print : forall w ast, wf_template ast = true ->
   parse_model w (print_nodes ast) = Ok (tree_of_full ast).
